@@ -26,7 +26,7 @@ def gen(rng, tier):
         else:
             m = iu.rand_message(rng, pk, codec)
             cases.append({'cfg': None, 'codec': codec, 'hex': hexbm, 'msg': iu.dict_text(m)})
-    cases.extend(collision_cases(rng, 180 if tier == 'quick' else 3000))
+    cases.extend(iu.collision_cases(rng, 180 if tier == 'quick' else 3000))
     # every configured element alone, at boundary lengths
     for b in sorted(int(k) for k in pk if int(k) >= 2):
         for j in range(3 if tier == 'quick' else 40):
@@ -36,56 +36,12 @@ def gen(rng, tier):
     return cases
 
 
-SAME_WIDTH = {6: ['%y%m%d', '%d%m%y', '%m%d%y', '%H%M%S'], 4: ['%m%d', '%d%m', '%H%M', '%M%S'], 8: ['%Y%m%d', '%d%m%Y']}
-
-
-def collision_cases(rng, n):
-    """Several elements carrying the SAME raw text under different configurations: datetime elements of equal width but
-    different formats with identical digits, int and text elements with those digits too, and (warm) the same digits
-    decoded under another format / codec / configuration in a preceding call of the same process.  Anything keyed by the
-    raw text alone (a memo table, a shared buffer) shows up here; the model has no state, so it is the reference."""
-    import datetime
-    out = []
-    for i in range(n):
-        w = rng.choice([6, 6, 4, 8])
-        fmts = SAME_WIDTH[w]
-        if w == 8:
-            digits = '%02d%02d%02d%02d' % (rng.randint(10, 12), rng.randint(10, 12), rng.randint(10, 12), rng.randint(10, 12))
-            # valid as %Y%m%d (year 10xx-12xx) and as %d%m%Y
-        else:
-            digits = ''.join('%02d' % rng.randint(1, 12) for _ in range(w // 2))
-        codec = rng.choice(iu.CODECS)
-
-        def mk(order):
-            bits = sorted(rng.sample(range(2, 128), len(order) + 2))
-            cfg, m = {}, {'MTI': '%04d' % rng.randrange(10000)}
-            for b, f in zip(bits, order):
-                cfg[str(b)] = {'field_name': 'd%d' % b, 'field_type': 'FIXED', 'field_length': w, 'field_python_type': 'datetime', 'field_date_format': f}
-                m['DE%d' % b] = datetime.datetime.strptime(digits, f)
-            cfg[str(bits[-2])] = {'field_name': 'n', 'field_type': 'FIXED', 'field_length': w, 'field_python_type': 'int'}
-            m['DE%d' % bits[-2]] = int(digits)
-            cfg[str(bits[-1])] = {'field_name': 't', 'field_type': 'FIXED', 'field_length': w}
-            m['DE%d' % bits[-1]] = digits
-            return cfg, m
-        order = rng.sample(fmts, rng.randint(2, len(fmts)))
-        cfg, m = mk(order)
-        case = {'cfg': cfg, 'codec': codec, 'hex': rng.random() < 0.5, 'msg': iu.dict_text(m)}
-        if i % 2:
-            wcfg, wm = mk(rng.sample(fmts, rng.randint(1, len(fmts))))
-            case['warm'] = [{'cfg': wcfg, 'codec': rng.choice([codec, rng.choice(iu.CODECS)]), 'hex': rng.random() < 0.5, 'msg': iu.dict_text(wm)}]
-        out.append(case)
-    return out
-
-
 def impl(case):
     from cardutil import iso8583
-    for w in case.get('warm', ()):
-        try:
-            wb = iso8583.dumps(iu.dict_of_text(w['msg']), encoding=w['codec'], iso_config=w['cfg'], hex_bitmap=w['hex'])
-            iso8583.loads(wb, encoding=w['codec'], iso_config=w['cfg'], hex_bitmap=w['hex'])
-        except Exception:
-            pass
-    cfg = case['cfg']
+    def warm_call(w, c):
+        wb = iso8583.dumps(iu.dict_of_text(w['msg']), encoding=w['codec'], iso_config=c, hex_bitmap=w['hex'])
+        iso8583.loads(wb, encoding=w['codec'], iso_config=c, hex_bitmap=w['hex'])
+    cfg = iu.run_warm(case, warm_call)
     m = iu.dict_of_text(case['msg'])
     res = {'dumps': outcome(lambda: iso8583.dumps(dict(m), encoding=case['codec'], iso_config=cfg, hex_bitmap=case['hex']), hb)}
     if res['dumps'].startswith('OK '):
